@@ -40,6 +40,11 @@ CHECKS = {
    text="Generated-input search: 112 templates (8 strategy instances x {alone, followed, inside choice / repetition / or_not, behind an alternative that failed further ahead, recovery inside recovery, validated p} and nested_delimiters with 0..2 extra pairs) x every string over {a,b,c} up to length 6 (quick) / 8 (thorough) resp. over {( ) [ ] a} up to 5 / 7, plus 400k / 5M random C01/C02-class grammars with recover_with at arbitrary nodes and nesting and validate emitters; compared with the reference: has_output, output value (which nodes produced fallback markers), number and order of errors, content (span start, found, expected set / message) of every recovered error and of the final error of a rejected input. Exploration within these bounds.",
    note="Trusted: the reference strategies written from the statement; both readings of V-take are admissible (the default one matched every case so far). Events inside nested_delimiters' scanner have no specified position (content not compared after one ran). collect_exactly under recover_with panics are F9 / C20 (counted).",
    design="DESIGN.md section 4, C08"),
+ "C17": dict(
+   technique="property-based metamorphic + differential testing: decorated (labelled / as_context / span-preserving map_err) vs undecorated grammar on acceptance, output, error count and spans; error content (label in place of expectations, contexts, map_err marker, map_err invocation count) against a reference failure-event log with the statement's decoration rules; exhaustive templates x short strings + proptest-driven random tier",
+   text="Generated-input search: 252 templates (6 decorations x 7 inner parsers x 6 surroundings: alone, followed, behind alternatives that left a pending error before / at / beyond the decorated failure, under or_not) x every string over {a,b,c} up to length 5 (quick) / 7 (thorough), plus 400k / 5M random C01/C02-class grammars with labelled / as_context / map_err / map_err_with_state at random nodes (validate emitters in half of them); the decorated and the undecorated grammar must agree on has_output, output, number of errors and every span, and the reported errors must carry exactly the labels / contexts / map_err markers the statement prescribes, with f invoked once per failure of its parser. Exploration within these bounds.",
+   note="Trusted: the reference event log with label / map_err rules; V-label-success admits both readings; contexts after a merge are only required to be a subset (unspecified which survive); `found` of a labelled user-supplied error is unspecified. F6 (map_err dropped the pending error on success) was found by this check and fixed in /repo (d0236bb).",
+   design="DESIGN.md section 4, C17"),
 }
 
 NOT_YET = {}
